@@ -112,9 +112,9 @@ static size_t nlens(void) { return THOROUGH ? COUNT_OF(LEN_T) : COUNT_OF(LEN_Q);
 static size_t lens(size_t i) { return THOROUGH ? LEN_T[i] : LEN_Q[i]; }
 
 /* ------------------------------------------------------------------ moduli */
-enum { M_CR1, M_CRP, M_CR2, M_CRMAX, M_CRH, M_ODDHI, M_ODDLO, M_ODDTOP1, M_EVENHI, M_EVENLO, M_TOP1, M_HIBIT, M_ODDMIN, M_MERS, M_THREE, M_TWO, NMC };
+enum { M_CR1, M_CRP, M_CR2, M_CRMAX, M_CRH, M_ODDHI, M_ODDLO, M_ODDTOP1, M_EVENHI, M_EVENLO, M_TOP1, M_HIBIT, M_ODDMIN, M_MERS, M_THREE, M_TWO, M_ODD3, NMC };
 static const char* MN[NMC] = { "crand-c1", "crand-prime", "crand-c2-even", "crand-cmax", "crand-chalf", "odd-hi", "odd-lo", "odd-top1",
-	"even-hi", "even-lo", "pow-top1", "pow-hibit", "odd-min", "mersenne-prime", "three", "two" };
+	"even-hi", "even-lo", "pow-top1", "pow-hibit", "odd-min", "mersenne-prime", "three", "two", "odd-3x" };
 static const unsigned CRP[][2] = { {32,5},{64,59},{96,17},{128,159},{160,47},{192,237},{224,63},{256,189},{288,167},{320,197},
 	{352,657},{384,317},{416,435},{448,203},{480,47},{512,569},{544,759},{576,789},{608,527},{640,305},{672,399},{704,245},
 	{736,509},{768,825},{800,105},{832,143},{864,243},{896,213},{928,645},{960,167},{992,1779},{1024,105},{1056,725},{1088,89},
@@ -154,14 +154,17 @@ static int mkmod(num* o, size_t n, int c)
 		return 0;
 	case M_THREE: if (n != 1) return 0; o->v[0] = 3; return 1;
 	case M_TWO: if (n != 1) return 0; o->v[0] = 2; return 1;
+	case M_ODD3:       /* 3 * (seeded odd): composite with a known small factor */
+		vxRandBuf(o->v, n * O_PER_W); o->v[0] |= 1; o->v[n - 1] &= (BHALF >> 1) - 1; o->v[n - 1] |= 1;
+		zzMulW(o->v, o->v, n, 3); return 1;
 	}
 	return 0;
 }
 static int mod_is_odd(const num* m) { return (m->v[0] & 1) != 0; }
 
 /* residues modulo mod (all < mod) */
-enum { R_ZERO, R_ONE, R_TWO, R_M1, R_M2, R_HALF, R_HALF1, R_RAND, R_RAND2, NRES };
-static const char* RN[NRES] = { "0", "1", "2", "m-1", "m-2", "(m-1)/2", "(m+1)/2", "rand", "rand2" };
+enum { R_ZERO, R_ONE, R_TWO, R_NC, R_M1, R_M2, R_HALF, R_HALF1, R_RAND, R_RAND2, NRES };
+static const char* RN[NRES] = { "0", "1", "2", "3", "m-1", "m-2", "(m-1)/2", "(m+1)/2", "rand", "rand2" };
 static void mkres(num* o, const num* mod, int r)
 {
 	size_t n = mod->n; word t[NW];
@@ -171,6 +174,10 @@ static void mkres(num* o, const num* mod, int r)
 	case R_ZERO: break;
 	case R_ONE: o->v[0] = 1; break;
 	case R_TWO: o->v[0] = 2; break;
+	case R_NC:         /* a small divisor of the modulus when it has one (3, 5, 7): a non-invertible residue */
+		o->v[0] = zzModW(mod->v, n, 3) == 0 ? 3 : zzModW(mod->v, n, 5) == 0 ? 5 : zzModW(mod->v, n, 7) == 0 ? 7 : 3;
+		if (zzModW(mod->v, n, o->v[0]) == 0 && wwCmpW(mod->v, n, o->v[0]) > 0) strcpy(o->nm, "small-divisor-of-mod");
+		break;
 	case R_M1: wwCopy(o->v, mod->v, n); zzSubW2(o->v, n, 1); break;
 	case R_M2: wwCopy(o->v, mod->v, n); zzSubW2(o->v, n, 2); break;
 	case R_HALF: wwCopy(o->v, mod->v, n); zzSubW2(o->v, n, 1); wwShLo(o->v, n, 1); break;
@@ -182,6 +189,7 @@ static void mkres(num* o, const num* mod, int r)
 	}
 	/* keep the precondition a < mod whatever the modulus (mod = 2, 3: small residues wrap) */
 	if (wwCmp(o->v, mod->v, n) >= 0) zzMod(o->v, o->v, n, mod->v, n, STACK);
+	if (wwIsZero(o->v, n)) strcpy(o->nm, "0"); else if (wwIsW(o->v, n, 1)) strcpy(o->nm, "1");
 }
 
 
@@ -1452,7 +1460,95 @@ static void fam_word(void)
 		FROMTO(u64, a64, 64, u64From, u64To, u64Rev2);
 	}
 }
-static void fam_qr(void) {}
+
+/* ------------------------------------------------------------------ qr: rings Z/(mod) built by zmCreate* */
+typedef void (*f_zmcreate)(qr_o*, const octet*, size_t, void*);
+static octet QRMEM[5][1 << 16];
+static void qr_line_begin(const char* op, const char* ctor, const char* strat, const octet* mod, size_t no)
+{
+	LB("qr", op, "def"); jStr("ctor", ctor); jStr("strat", strat); jInt("no", (long long)no); jOct("mod", mod, no);
+}
+static void qr_ring(qr_o* r, const char* ctor, const char* strat, const num* mod, const octet* modo, size_t no)
+{
+	size_t n = r->n; int i, j; num a, b; octet ao[NW * 8], bo[NW * 8], co[NW * 8]; char c2[200];
+	/* unity */
+	qr_line_begin("qrUnity", ctor, strat, modo, no); CALL(qrTo(co, r->unity, r, STACK)); jOct("out", co, no); MKCLS("mod=%s", mod->nm); LE_(CLS, "none");
+	/* qrFrom accepts canonical representatives only: mod - 1 yes, mod no, all-FF no (unless mod = all-FF + ...) */
+	for (i = 0; i < 3; ++i)
+	{
+		bool_t ok;
+		wwCopy(A, mod->v, n); if (i == 0) zzSubW2(A, n, 1); else if (i == 2) set_fill(A, n, BMAX);
+		wwTo(ao, no, A);
+		qr_line_begin("qrFrom", ctor, strat, modo, no); jOct("a", ao, no); CALL(ok = qrFrom(B_, ao, r, STACK)); jInt("ret", ok);
+		MKCLS("mod=%s,a=%s", mod->nm, i == 0 ? "m-1" : i == 1 ? "m" : "FF"); LE_(CLS, "none");
+	}
+	for (i = 0; i < NRES; ++i)
+	{
+		mkres(&a, mod, i); wwTo(ao, no, a.v);
+		if (!qrFrom(A, ao, r, STACK)) continue;
+		snprintf(c2, sizeof(c2), "mod=%s,a=%s", mod->nm, a.nm);
+		qr_line_begin("qrNeg", ctor, strat, modo, no); jOct("a", ao, no); CALL(qrNeg(C, A, r)); qrTo(co, C, r, STACK); jOct("out", co, no); LE_(c2, "none");
+		qr_line_begin("qrSqr", ctor, strat, modo, no); jOct("a", ao, no); CALL(qrSqr(C, A, r, STACK)); qrTo(co, C, r, STACK); jOct("out", co, no); LE_(c2, "none");
+		if (i != R_ZERO && mod_is_odd(mod))       /* zmInv / zmDiv are zzInvMod / zzDivMod: odd moduli only */
+		{
+			qr_line_begin("qrInv", ctor, strat, modo, no); jOct("a", ao, no); g_sig = a.nm; CALL(qrInv(C, A, r, STACK)); g_sig = ""; qrTo(co, C, r, STACK); jOct("out", co, no); LE_(c2, "none");
+		}
+		/* power with exponents 0, 1, 2, a 1-word and a 2-word value */
+		for (j = 0; j < 5; ++j)
+		{
+			word e[2]; size_t m = j < 4 ? 1 : 2; char c3[240];
+			e[0] = j == 0 ? 0 : j == 1 ? 1 : j == 2 ? 2 : rnd_word(); e[1] = j == 4 ? 5 : 0;
+			if (!THOROUGH && n > 2 && j >= 3 && i % 2) continue;
+			snprintf(c3, sizeof(c3), "%s,e=%s", c2, j == 0 ? "0" : j == 1 ? "1" : j == 2 ? "2" : j == 3 ? "rand1" : "rand2");
+			qr_line_begin("qrPower", ctor, strat, modo, no); jOct("a", ao, no); LW("e", e, m); CALL(qrPower(C, A, e, m, r, STACK)); qrTo(co, C, r, STACK); jOct("out", co, no); LE_(c3, "none");
+		}
+		for (j = 0; j < NRES; ++j)
+		{
+			if (!THOROUGH && !(i <= R_ONE || j <= R_ONE || i == R_M1 || j == R_M1 || i == j || j == (i + 1) % NRES)) continue;
+			mkres(&b, mod, j); wwTo(bo, no, b.v);
+			if (!qrFrom(B_, bo, r, STACK)) continue;
+			snprintf(c2, sizeof(c2), "mod=%s,a=%s,b=%s", mod->nm, a.nm, b.nm);
+			qr_line_begin("qrAdd", ctor, strat, modo, no); jOct("a", ao, no); jOct("b", bo, no); CALL(qrAdd(C, A, B_, r)); qrTo(co, C, r, STACK); jOct("out", co, no); LE_(c2, "none");
+			qr_line_begin("qrSub", ctor, strat, modo, no); jOct("a", ao, no); jOct("b", bo, no); CALL(qrSub(C, A, B_, r)); qrTo(co, C, r, STACK); jOct("out", co, no); LE_(c2, "none");
+			qr_line_begin("qrMul", ctor, strat, modo, no); jOct("a", ao, no); jOct("b", bo, no); CALL(qrMul(C, A, B_, r, STACK)); qrTo(co, C, r, STACK); jOct("out", co, no); LE_(c2, "none");
+			if (i != R_ZERO && mod_is_odd(mod))
+			{
+				/* b / a */
+				qr_line_begin("qrDiv", ctor, strat, modo, no); jOct("a", ao, no); jOct("b", bo, no); g_sig = a.nm; CALL(qrDiv(C, B_, A, r, STACK)); g_sig = ""; qrTo(co, C, r, STACK); jOct("out", co, no); LE_(c2, "none");
+			}
+		}
+	}
+}
+static void fam_qr(void)
+{
+	static const size_t LQ[] = { 1, 2, 3, 4 }, LT[] = { 1, 2, 3, 4, 5, 6, 8, 9 };
+	static const char* SNM[4] = { "plain", "crand", "barr", "mont" };
+	size_t t, cnt = THOROUGH ? COUNT_OF(LT) : COUNT_OF(LQ); int mc, k; num mod;
+	for (t = 0; t < cnt; ++t)
+	{
+		size_t n = THOROUGH ? LT[t] : LQ[t];
+		for (mc = 0; mc < NMC; ++mc)
+		{
+			octet modo[NW * 8]; size_t no; qr_o* rr[5]; int have[5]; const char* strat = "unknown";
+			if (!mkmod(&mod, n, mc)) continue;
+			if (n == 1 && mod.v[0] < 2) continue;
+			no = wwOctetSize(mod.v, n);
+			if (W_OF_O(no) != n) continue;
+			wwTo(modo, no, mod.v);
+			if (zmCreate_keep(no) > sizeof(QRMEM[0]) || zmCreate_deep(no) > sizeof(STACK)) continue;
+			for (k = 0; k < 5; ++k) rr[k] = (qr_o*)QRMEM[k], have[k] = 0;
+			zmCreatePlain(rr[0], modo, no, STACK); have[0] = 1;
+			if (mod_is_crand(mc) && n >= 2 && no == n * O_PER_W) zmCreateCrand(rr[1], modo, no, STACK), have[1] = 1;
+			zmCreateBarr(rr[2], modo, no, STACK); have[2] = 1;
+			if (mod_is_odd(&mod)) zmCreateMont(rr[3], modo, no, STACK), have[3] = 1;
+			zmCreate(rr[4], modo, no, STACK); have[4] = 1;
+			for (k = 0; k < 4; ++k) if (have[k] && rr[k]->mul == rr[4]->mul && rr[k]->from == rr[4]->from) { strat = SNM[k]; break; }
+			qr_ring(rr[4], "zmCreate", strat, &mod, modo, no);
+			if (THOROUGH || n <= 2)
+				for (k = 0; k < 4; ++k) if (have[k]) { char cn[32]; snprintf(cn, sizeof(cn), "zmCreate%c%s", SNM[k][0] - 32, SNM[k] + 1); qr_ring(rr[k], cn, SNM[k], &mod, modo, no); }
+		}
+	}
+}
 /*@ENDMORE@*/
 static int has(int argc, char** argv, const char* f)
 {
